@@ -162,6 +162,11 @@ impl FixtureDatabase {
                     self.collect_local_variables(&try_stmt.body, line_index, local_vars);
                     for handler in &try_stmt.handlers {
                         let rustpython_parser::ast::ExceptHandler::ExceptHandler(h) = handler;
+                        if let Some(ref name) = h.name {
+                            let line =
+                                self.get_line_from_offset(h.range.start().to_usize(), line_index);
+                            local_vars.insert(name.to_string(), line);
+                        }
                         self.collect_local_variables(&h.body, line_index, local_vars);
                     }
                     self.collect_local_variables(&try_stmt.orelse, line_index, local_vars);
@@ -171,6 +176,11 @@ impl FixtureDatabase {
                     self.collect_local_variables(&try_stmt.body, line_index, local_vars);
                     for handler in &try_stmt.handlers {
                         let rustpython_parser::ast::ExceptHandler::ExceptHandler(h) = handler;
+                        if let Some(ref name) = h.name {
+                            let line =
+                                self.get_line_from_offset(h.range.start().to_usize(), line_index);
+                            local_vars.insert(name.to_string(), line);
+                        }
                         self.collect_local_variables(&h.body, line_index, local_vars);
                     }
                     self.collect_local_variables(&try_stmt.orelse, line_index, local_vars);
@@ -179,6 +189,55 @@ impl FixtureDatabase {
                 Stmt::Match(match_stmt) => {
                     for case in &match_stmt.cases {
                         self.collect_local_variables(&case.body, line_index, local_vars);
+                    }
+                }
+                Stmt::Import(import) => {
+                    let line =
+                        self.get_line_from_offset(import.range.start().to_usize(), line_index);
+                    for alias in &import.names {
+                        // `import a.b` binds `a`; `import a.b as c` binds `c`
+                        let bound = match &alias.asname {
+                            Some(asname) => asname.as_str(),
+                            None => alias.name.split('.').next().unwrap_or(""),
+                        };
+                        local_vars.insert(bound.to_string(), line);
+                    }
+                }
+                Stmt::ImportFrom(import) => {
+                    let line =
+                        self.get_line_from_offset(import.range.start().to_usize(), line_index);
+                    for alias in &import.names {
+                        let bound = alias.asname.as_ref().unwrap_or(&alias.name);
+                        local_vars.insert(bound.to_string(), line);
+                    }
+                }
+                Stmt::FunctionDef(func_def) => {
+                    let line =
+                        self.get_line_from_offset(func_def.range.start().to_usize(), line_index);
+                    local_vars.insert(func_def.name.to_string(), line);
+                }
+                Stmt::AsyncFunctionDef(func_def) => {
+                    let line =
+                        self.get_line_from_offset(func_def.range.start().to_usize(), line_index);
+                    local_vars.insert(func_def.name.to_string(), line);
+                }
+                Stmt::ClassDef(class_def) => {
+                    let line =
+                        self.get_line_from_offset(class_def.range.start().to_usize(), line_index);
+                    local_vars.insert(class_def.name.to_string(), line);
+                }
+                Stmt::Global(global) => {
+                    let line =
+                        self.get_line_from_offset(global.range.start().to_usize(), line_index);
+                    for name in &global.names {
+                        local_vars.insert(name.to_string(), line);
+                    }
+                }
+                Stmt::Nonlocal(nonlocal) => {
+                    let line =
+                        self.get_line_from_offset(nonlocal.range.start().to_usize(), line_index);
+                    for name in &nonlocal.names {
+                        local_vars.insert(name.to_string(), line);
                     }
                 }
                 _ => {}
